@@ -18,16 +18,32 @@ BIN = {'add': operator.add, 'sub': operator.sub, 'mul': operator.mul, 'div': ope
 IBIN = {'add': operator.iadd, 'sub': operator.isub, 'mul': operator.imul, 'div': operator.itruediv}
 
 
+def relayout(a, layout):
+    """the same values in another memory layout: 'F' = every coefficient slice Fortran-ordered (what A.T hands over),
+    'strided' = a view with step 2 into a larger buffer"""
+    if layout == 'F' and a.ndim >= 2:
+        return np.ascontiguousarray(a.swapaxes(-1, -2)).swapaxes(-1, -2)
+    if layout == 'strided' and a.ndim >= 1 and a.shape[-1] >= 1:
+        big = np.zeros(a.shape[:-1] + (2 * a.shape[-1],), dtype=a.dtype)
+        big[..., ::2] = a
+        return big[..., ::2]
+    return a
+
+
 def unchanged_fails(case):
-    args = ops.build_args(case)
-    before = [a.data.copy() if isinstance(a, UTPM) else (a.copy() if isinstance(a, np.ndarray) else None) for a in args]
-    st, out = ops.call(case, args)
-    for i, (a, b) in enumerate(zip(args, before)):
-        if b is None:
-            continue
-        now = a.data if isinstance(a, UTPM) else a
-        if now.shape != b.shape or now.tobytes() != b.tobytes():
-            return 'mutated-%s: argument %d was modified by the call' % (case['op'], i)
+    for layout in ('C', 'F', 'strided'):
+        args = ops.build_args(case)
+        if layout != 'C':
+            args = [UTPM(relayout(a.data, layout)) if isinstance(a, UTPM) and a.data.ndim >= 3 else
+                    (relayout(a, layout) if isinstance(a, np.ndarray) else a) for a in args]
+        before = [a.data.copy() if isinstance(a, UTPM) else (a.copy() if isinstance(a, np.ndarray) else None) for a in args]
+        st, out = ops.call(case, args)
+        for i, (a, b) in enumerate(zip(args, before)):
+            if b is None:
+                continue
+            now = a.data if isinstance(a, UTPM) else a
+            if now.shape != b.shape or now.tobytes() != b.tobytes():
+                return 'mutated-%s: argument %d (memory layout %s) was modified by the call' % (case['op'], i, layout)
     return None
 
 
